@@ -15,6 +15,7 @@ import (
 type tEntry struct {
 	hdr  tar.Header
 	body string
+	w    int // index of the tar.Writer that wrote it (Pack calls may be nested by a harness hook)
 }
 
 type tChanErr struct{ where string }
@@ -32,12 +33,15 @@ var (
 	tFaultsHit  []string
 	tPendingErr bool // an underlying writer failure that has not surfaced yet
 	tCopied     int64
+	tWriters    []*tar.Writer
+	tHook       func() // harness hook run at the first channel write (a yield point for re-entrancy)
 )
 
 func tReset() {
 	tOut, tOutClosed, tGzClosed = nil, false, false
 	tIn, tInPos, tInTrunc = nil, 0, false
 	tFaultLeft, tFaultsHit, tPendingErr, tCopied = 0, nil, false, 0
+	tWriters, tHook = nil, nil
 }
 
 func tFault(where string) bool {
@@ -56,13 +60,30 @@ func model_gzip_NewWriterLevel(w io.Writer, level int) (*gzip.Writer, error) {
 	return new(gzip.Writer), nil
 }
 
-func model_tar_NewWriter(w io.Writer) *tar.Writer { return new(tar.Writer) }
+func model_tar_NewWriter(w io.Writer) *tar.Writer {
+	tw := new(tar.Writer)
+	tWriters = append(tWriters, tw)
+	return tw
+}
+
+func tWriterIndex(tw *tar.Writer) int {
+	for i, x := range tWriters {
+		if x == tw {
+			return i
+		}
+	}
+	return 0
+}
 
 func model_tar_Writer_WriteHeader(tw *tar.Writer, h *tar.Header) error {
 	if tFault("WriteHeader") {
 		return &tChanErr{"WriteHeader"}
 	}
-	tOut = append(tOut, tEntry{hdr: *h})
+	if hook := tHook; hook != nil {
+		tHook = nil
+		hook()
+	}
+	tOut = append(tOut, tEntry{hdr: *h, w: tWriterIndex(tw)})
 	return nil
 }
 
@@ -79,6 +100,20 @@ func model_gzip_Writer_Close(gw *gzip.Writer) error {
 		return &tChanErr{"gzip.Close"}
 	}
 	tGzClosed = true
+	return nil
+}
+
+func model_gzip_Writer_Flush(gw *gzip.Writer) error {
+	if tFault("gzip.Flush") {
+		return &tChanErr{"gzip.Flush"}
+	}
+	return nil
+}
+
+func model_tar_Writer_Flush(tw *tar.Writer) error {
+	if tFault("tar.Flush") {
+		return &tChanErr{"tar.Flush"}
+	}
 	return nil
 }
 
@@ -127,8 +162,12 @@ func model_io_Copy(dst io.Writer, src io.Reader) (int64, error) {
 			// a short copy: some prefix made it, then the error
 			return 0, &tChanErr{"Copy"}
 		}
-		if len(tOut) > 0 {
-			tOut[len(tOut)-1].body += data
+		wi := tWriterIndex(d)
+		for k := len(tOut) - 1; k >= 0; k-- {
+			if tOut[k].w == wi {
+				tOut[k].body += data
+				break
+			}
 		}
 		tCopied += int64(len(data))
 		return int64(len(data)), nil
@@ -144,10 +183,7 @@ func model_io_Copy(dst io.Writer, src io.Reader) (int64, error) {
 		if tInPos > 0 {
 			body = tIn[tInPos-1].body
 		}
-		if idx := vFind(h.segs); idx >= 0 {
-			vNodes[idx].data += body
-			vNodes[idx].mtime = vNowSec
-		}
+		vWriteAt(h, body)
 		return int64(len(body)), nil
 	}
 	return 0, &tChanErr{"io.Copy: unexpected destination"}
